@@ -46,12 +46,16 @@ pub open spec fn no_overflow(res: (usize, FileLen), len: FileLen, count: usize) 
     res.0 + count <= usize::MAX && len.0 * count <= u64::MAX && res.1.0 + len.0 * count <= u64::MAX
 }
 
-// body of the closure of the 1st `.fold(` of write_report: redundant files / bytes of the header
-fn redundant_step(res: (usize, FileLen), g: &Group, config: &GroupConfig) -> (r: (usize, FileLen))
-    requires no_overflow(res, g.file_len, spec_redundant(g)),
+'''
+
+STEP = '''
+// body of the closure of the %(nth)s `.fold(` of write_report: %(what)s files / bytes of the header
+// (the parameter names are those of the closure in the source)
+fn %(what)s_step(%(acc)s: (usize, FileLen), %(g)s: &Group, config: &GroupConfig) -> (r: (usize, FileLen))
+    requires no_overflow(%(acc)s, %(g)s.file_len, spec_%(what)s(%(g)s)),
     ensures
-        r.0 == res.0 + spec_redundant(g), // @ob C14.header.redundant_count_sums_the_groups_redundant_counts
-        r.1.0 == res.1.0 + g.file_len.0 * spec_redundant(g), // @ob C14.header.redundant_size_is_len_times_redundant_count
+        r.0 == %(acc)s.0 + spec_%(what)s(%(g)s), // @ob C14.header.%(what)s_count_sums_the_groups_%(what)s_counts
+        r.1.0 == %(acc)s.1.0 + %(g)s.file_len.0 * spec_%(what)s(%(g)s), // @ob C14.header.%(what)s_size_is_len_times_%(what)s_count
 '''
 
 
@@ -68,18 +72,17 @@ def build():
     ub.piece(Piece(f.item("impl Mul<u64> for FileLen {")))
     ub.spec("\n")
     ub.spec(MID)
+    import re
+    from vf.verus_run import LostAnchor
     fn = g.item("pub fn write_report(")
-    ub.piece(Piece(g.call_arg(fn, ".fold", 1, occurrence=0)))
-    ub.spec('''
-
-// body of the closure of the 2nd `.fold(`: missing files / bytes of the header
-fn missing_step(res: (usize, FileLen), g: &Group, config: &GroupConfig) -> (r: (usize, FileLen))
-    requires no_overflow(res, g.file_len, spec_missing(g)),
-    ensures
-        r.0 == res.0 + spec_missing(g), // @ob C14.header.missing_count_sums_the_groups_missing_counts
-        r.1.0 == res.1.0 + g.file_len.0 * spec_missing(g), // @ob C14.header.missing_size_is_len_times_missing_count
-''')
-    ub.piece(Piece(g.call_arg(fn, ".fold", 1, occurrence=1)))
+    for k, (nth, what) in enumerate((("1st", "redundant"), ("2nd", "missing"))):
+        whole = g.call_arg(fn, ".fold", 1, strip_closure_head=None, occurrence=k)
+        m = re.match(r"\|\s*(\w+)\s*,\s*(\w+)\s*\|", whole.text)
+        if not m:
+            raise LostAnchor("closure of fold number %d in write_report is not `|acc, group| ..`" % k)
+        ub.spec(STEP % dict(nth=nth, what=what, acc=m.group(1), g=m.group(2)))
+        ub.piece(Piece(g.call_arg(fn, ".fold", 1, occurrence=k)))
+        ub.spec("\n")
     ub.spec("\n\n")
     ub.piece(Piece(r.item("pub struct FileStats {"), drop_attrs=("derive",)))
     ub.spec('''
